@@ -275,9 +275,9 @@ type c11Marker struct {
 	Msg string
 }
 
-func (c c11LogCore) Enabled(l zapcore.Level) bool        { return l >= zapcore.InfoLevel }
-func (c c11LogCore) With([]zapcore.Field) zapcore.Core  { return c }
-func (c c11LogCore) Sync() error                        { return nil }
+func (c c11LogCore) Enabled(l zapcore.Level) bool      { return l >= zapcore.InfoLevel }
+func (c c11LogCore) With([]zapcore.Field) zapcore.Core { return c }
+func (c c11LogCore) Sync() error                       { return nil }
 func (c c11LogCore) Check(e zapcore.Entry, ce *zapcore.CheckedEntry) *zapcore.CheckedEntry {
 	if c.Enabled(e.Level) {
 		return ce.AddCore(e, c)
@@ -296,19 +296,19 @@ func (c c11LogCore) Write(e zapcore.Entry, _ []zapcore.Field) error {
 // ---------------------------------------------------------------- hub
 
 type c11Hub struct {
-	dir       string
-	env       *conf.Config
-	store     *server.Store
-	dsm       *server.DsManager
-	bus       server.EventBus
-	runner    *jobs.Runner
-	sched     *jobs.Scheduler
-	rec       *c11Rec
-	poolIncr  int
-	poolFull  int
-	markMu    sync.Mutex
-	markers   []c11Marker
-	prefix    string // namespace prefix of http://data.c11/
+	dir      string
+	env      *conf.Config
+	store    *server.Store
+	dsm      *server.DsManager
+	bus      server.EventBus
+	runner   *jobs.Runner
+	sched    *jobs.Scheduler
+	rec      *c11Rec
+	poolIncr int
+	poolFull int
+	markMu   sync.Mutex
+	markers  []c11Marker
+	prefix   string // namespace prefix of http://data.c11/
 }
 
 // c11OpenHub assembles store, event bus, dataset manager, token providers, runner and
@@ -629,7 +629,7 @@ func (l *c11Loop) serve(w http.ResponseWriter, req *http.Request) {
 				poisoned = true
 			}
 		}
-		reject := mode == "fail" && poisoned
+		reject := (mode == "fail" && poisoned) || mode == "failall"
 		if fn := atomic.LoadInt64(&l.flakyN); mode == "flaky" && fn > 0 && atomic.AddInt64(&l.sinkReqs, 1)%fn == 0 {
 			reject = true
 		}
@@ -879,6 +879,9 @@ func c11DeathClass(d c11Death, cfg *c11Cfg) string {
 		c11HasFrame(d, "jobs.(*IncrementalPipeline).sync.func"):
 		// parallel workers of the incremental pipeline share one JS runtime when the transform is wrapped
 		return "died-js-parallelism+log-handler-shared-runtime"
+	case d.Kind == "stack-overflow" && c11HasFrame(d, "jobs.(*wrappedSink).processEntities") && (cfg == nil || hasLog):
+		// the split-and-retry recursion of the per-entity error handling does not terminate
+		return "died-log-handler-sink-bisection-recursion"
 	case cfg != nil && cfg.Transform == "jsNoFunc" && d.Kind == "nil-deref" && c11HasFrame(d, "jobs.(*JavascriptTransform).transformEntities"):
 		return "died-js-transform-code-without-transform_entities"
 	case cfg != nil && (cfg.Transform == "jsNoCode" || cfg.Transform == "jsEmptyCode") && d.Kind == "nil-deref" && c11HasFrame(d, "jobs.(*JavascriptTransform)."):
@@ -1305,6 +1308,51 @@ func c11JudgeNetAfterKill(h *c11Hub, loop *c11Loop, id string, killSeq int64, vi
 			fmt.Sprintf("KillJob(%s) has returned but the run still holds its slot (listed by GetRunningJobs: %v): its goroutine is parked in %s (state %q) below %s while the remote end stalls, and no goroutine of the hub is running or runnable - the kill never reached the HTTP request, the run cannot end as killed",
 				id, listed, p.Run.Funcs[0], p.Run.State, p.WaitIn),
 			"after KillJob the run ends (kill / failure) with a stored result and gives its slot back", p, map[string]any{"run": r, "stack": stack, "listed_by_GetRunningJobs": listed})
+	}
+	return n
+}
+
+// ---------------------------------------------------------------- run that recurses without end
+
+const c11WrappedSinkProcess = c11JobsPkg + "(*wrappedSink).processEntities"
+
+// c11JudgeRecursion: the per-entity error handling bisects a rejected batch; for a batch of b
+// entities wrappedSink.processEntities is at most ceil(log2 b)+1 levels deep on the stack. The
+// jobs of the sweep use batches of at most 7 entities (4 levels). A run whose goroutine shows
+// the function 40 times or more (a goroutine dump prints at most 100 frames) is in a recursion
+// that does not terminate - decided from the stack, not from how long the run has taken.
+func c11JudgeRecursion(h *c11Hub, viol func(class, msg string, exp, obs any, extra map[string]any)) int {
+	n := 0
+	var gs map[int64]*c11G
+	dump := ""
+	for _, r := range h.rec.snapshotRuns() {
+		if r.SeqReturn != 0 || r.Outcome != "" {
+			continue
+		}
+		if gs == nil {
+			dump = c11DumpAll()
+			gs = c11ParseGoroutines(dump)
+		}
+		depth := 0
+		// the run's goroutine, or (parallel transform / http) none other: the sink is called by the run's goroutine
+		if g := gs[r.Gid]; g != nil {
+			for _, f := range g.Funcs {
+				if f == c11WrappedSinkProcess {
+					depth++
+				}
+			}
+		}
+		if depth < 40 {
+			continue
+		}
+		n++
+		stack := c11StackOf(dump, r.Gid)
+		if len(stack) > 6000 {
+			stack = stack[:6000]
+		}
+		viol("run-recursing-without-end:wrappedSink.processEntities",
+			fmt.Sprintf("run of %s: wrappedSink.processEntities is at least %d levels deep on the stack of the run's goroutine although bisecting a batch of at most 7 entities needs 4: the split-and-retry recursion does not terminate, the run never ends (and the hub dies once the stack limit is reached)", c11nz(r.ID, "?"), depth),
+			"the run ends as success, failure or kill", map[string]any{"depth_at_least": depth}, map[string]any{"run": r, "stack": stack})
 	}
 	return n
 }
